@@ -18,7 +18,55 @@ func respWriterArg(cc *ssa.CallCommon) (int, ssa.Value) {
 			return i, a
 		}
 	}
+	// the writer travels inside a parameter struct built by the caller (`env := &attemptEnv{w: tracked, …}`)
+	for i, a := range cc.Args {
+		if w := writerInStructArg(a); w != nil {
+			return i, w
+		}
+	}
 	return -1, nil
+}
+
+// writerInStructArg: a is (the address of, or a load of) a struct allocated in the calling function one of whose
+// fields has type http.ResponseWriter and is stored exactly once; returns the stored writer.
+func writerInStructArg(a ssa.Value) ssa.Value {
+	var al *ssa.Alloc
+	switch x := a.(type) {
+	case *ssa.Alloc:
+		al = x
+	case *ssa.UnOp:
+		if x.Op == token.MUL {
+			al, _ = x.X.(*ssa.Alloc)
+		}
+	}
+	if al == nil {
+		return nil
+	}
+	if _, isStruct := deref(al.Type()).Underlying().(*types.Struct); !isStruct {
+		return nil
+	}
+	var out ssa.Value
+	n := 0
+	for _, ref := range *al.Referrers() {
+		fa, ok := ref.(*ssa.FieldAddr)
+		if !ok {
+			continue
+		}
+		_, fld, _ := fieldOf(fa)
+		if !isNamed(fld.Type(), "net/http", "ResponseWriter") {
+			continue
+		}
+		for _, r2 := range *fa.Referrers() {
+			if st, ok := r2.(*ssa.Store); ok && st.Addr == ssa.Value(fa) {
+				out = st.Val
+				n++
+			}
+		}
+	}
+	if n == 1 {
+		return out
+	}
+	return nil
 }
 
 // wrapperInfo describes a repo-defined ResponseWriter wrapper that records "response started".
